@@ -8,7 +8,9 @@ function that is covered by the locked fetch-split-store rules (C04.b); the meta
 uses one level's quantities: _meta_size is the element-wise minimum of the configured meta
 size and that level's grid size and is the only reader of meta_size, the split pattern is
 placed with the tile size and buffer of the matching axis (C04.c); concurrent creators are
-covered by the shared rules C08.a/b (C04.d)."""
+covered by the shared rules C08.a/b (C04.d).
+Added in round 4: where the buffered meta tile rectangle is cut at the grid border the buffer of
+that edge shrinks by exactly the distance cut off (C04.i)."""
 import ast
 
 from ..engine import rule, run_property
